@@ -22,6 +22,14 @@ impl AdjustHeightsHeap {
     pub(crate) fn max_height_allowed(&self) -> i32 {
         self.queues.len() as i32 - 1
     }
+    #[cfg(cormacrelf_incremental_rs_verif)]
+    pub(crate) fn verif_max_height_seen(&self) -> i32 {
+        self.max_height_seen
+    }
+    #[cfg(cormacrelf_incremental_rs_verif)]
+    pub(crate) fn verif_queued(&self) -> usize {
+        calculate_len(&self.queues)
+    }
     pub(crate) fn new(max_height_allowed: usize) -> Self {
         Self {
             length: 0,
